@@ -15,6 +15,8 @@ UNITS = [
     U("get_tls_key", "h_get_tls_key", "tls.c", P, canaries=4, functions=["pp_uthread_get_tls_key"]),
     U("set_replace_get", "h_set_replace_get", "tls.c", P, canaries=2, functions=["p_uthread_get_local", "p_uthread_set_local", "p_uthread_replace_local"]),
     U("local_new_free", "h_local_new_free", "tls.c", P, canaries=2, functions=["p_uthread_local_new", "p_uthread_local_free"]),
+    U("init_shutdown", "h_init_shutdown", "thread.c", T, canaries=3, functions=["p_uthread_init", "p_uthread_shutdown"]),
+    U("create_internal", "h_create_internal", "tls.c", P, defines=["UNIT_CREATE_INTERNAL"], canaries=3, functions=["p_uthread_create_internal", "p_uthread_free_internal", "pp_uthread_get_unix_priority"]),
 ]
 REQUIRE_CONFIGURED = ["puthread.c", "puthread-posix.c"]
 TECHNIQUE = "CBMC obligations on the real puthread.c / puthread-posix.c with rely/guarantee stubs: other reference holders act around the atomic decrement, the creator/new-thread handshake is a monitor on the start-up spinlock, a rival thread may win the TLS key publication CAS"
